@@ -4,13 +4,13 @@
     every key of the pattern's constraints; match_exists = true only if an
     occurrence exists; NaiveManyMatcher reports for pattern number j exactly the
     bindings of the single-pattern matcher of the j-th pattern.
-    For strings also the converse (c05_string_single_exact, _match_exists_exact,
-    _naive_exact): every occurrence is reported, so the reported anchors are
-    exactly the occurrences.  Not proved: the converse for matrices, and that an
-    occurrence is reported once and in scan order (decided by the exact-sequence
-    comparison of implementation, model and occurrence scan on every generated case). *)
+    For strings and matrices also the converse (c05_string_*_exact,
+    c05_matrix_*_exact): every occurrence is reported, so the reported anchors
+    are exactly the occurrences.  Not proved: that an occurrence is reported once
+    and in scan order (decided by the exact-sequence comparison of
+    implementation, model and occurrence scan on every generated case). *)
 From PM Require Import Model.Prelude Model.Domain Model.Constraint Model.Matchers
-  Model.DomString Model.DomMatrix Spec.Occ Proofs.SingleDomains Proofs.NaiveProofs Proofs.OccProofs Proofs.StringSingle.
+  Model.DomString Model.DomMatrix Spec.Occ Proofs.SingleDomains Proofs.NaiveProofs Proofs.OccProofs Proofs.StringSingle Proofs.MatrixSingle.
 
 Theorem c05_string_single_sound_partial :
   forall p h fuel r, p <> [] ->
@@ -68,6 +68,27 @@ Theorem c05_string_naive_exact :
     ((exists len, In (N.of_nat i, SBound a len) ms) <-> occ_string p h a).
 Proof. exact s_naive_exact. Qed.
 
+(** matrices: exactly the occurrences *)
+Theorem c05_matrix_single_exact :
+  forall p h fuel r,
+    single matrix_dom fuel (m_cvec p) h = Ok r ->
+    (forall m, In m r -> exists s a b, m = MBound s a b /\ occ_matrix p h s)
+    /\ (forall s, occ_matrix p h s <-> exists a b, In (MBound s a b) r).
+Proof. exact m_single_exact. Qed.
+
+Theorem c05_matrix_match_exists_exact :
+  forall p h fuel b,
+    match_exists matrix_dom fuel (m_cvec p) h = Ok b ->
+    (b = true <-> exists s, occ_matrix p h s).
+Proof. exact m_match_exists_exact. Qed.
+
+Theorem c05_matrix_naive_exact :
+  forall pats h fuel ms i p s,
+    naive matrix_dom fuel (map m_cvec pats) h = Ok ms ->
+    nth_error pats i = Some p ->
+    ((exists a b, In (N.of_nat i, MBound s a b) ms) <-> occ_matrix p h s).
+Proof. exact m_naive_exact. Qed.
+
 Example c05_example :
   single string_dom 100 (s_cvec [Lit 97; Var 1; Var 1]%N) [98; 97; 99; 99; 97; 98; 98]%N
   = Ok [SBound 1 3; SBound 4 3]%N
@@ -83,3 +104,6 @@ Print Assumptions c05_naive_numbers_by_position.
 Print Assumptions c05_string_single_exact.
 Print Assumptions c05_string_match_exists_exact.
 Print Assumptions c05_string_naive_exact.
+Print Assumptions c05_matrix_single_exact.
+Print Assumptions c05_matrix_match_exists_exact.
+Print Assumptions c05_matrix_naive_exact.
